@@ -16,7 +16,8 @@ use cascette_cache::config::DiskCacheConfig;
 use cascette_cache::key::CacheKey;
 use cascette_cache::traits::AsyncCache;
 use cascette_cache::DiskCache;
-use cascette_client_storage::index::IndexManager;
+use cascette_client_storage::container::{AccessMode, Container, DynamicContainer, ResidencyContainer};
+use cascette_client_storage::index::{IndexManager, UpdateStatus};
 use cascette_client_storage::kmt::key_state::ResidencyDb;
 use cascette_client_storage::lru::LruManager;
 use cascette_client_storage::storage::compaction::ExtractorCompactorBackup;
@@ -48,13 +49,19 @@ fn role(p: &Path) -> &'static str {
     let name = p.file_name().and_then(|n| n.to_str()).unwrap_or("");
     if name.ends_with(".tmp") {
         "temp"
+    } else if name == ".residency" {
+        "residency-token"
+    } else if name.starts_with("key_state") {
+        "residency-file"
+    } else if name.starts_with("data.") {
+        "archive-data-file"
     } else if name.ends_with(".idx") {
         "index-file"
     } else if name.ends_with(".lru") {
         "lru-generation-file"
     } else if name.contains("residency") {
         "residency-file"
-    } else if name.contains("backup") || name.contains("compact") {
+    } else if name.contains("backup") || name.contains("compact") || name == "extract_bu" {
         "journal"
     } else {
         "cache-entry-file"
@@ -91,7 +98,42 @@ enum Kind {
     DiskCachePut,
     DiskCachePutSubdirs,
     JournalRecord,
+    // --- coverage-driven extension: the other entry points that run the same save routines, and the branches of the
+    // monitored ones that never ran under the monitor
+    IndexFlushAll,
+    IndexMutatorOnFullSection,
+    ContainerWrite,
+    ContainerRemove,
+    ResidencyContainerFlush,
+    LruAfterReload,
+    LruRunCycle,
+    DiskCacheRemove,
+    DiskCacheClear,
+    DiskCachePutReopened,
+    JournalSave,
 }
+
+const ALL_KINDS: [Kind; 19] = [
+    Kind::IndexSaveAll,
+    Kind::IndexFlushBucket,
+    Kind::ResidencySave,
+    Kind::LruCheckpoint,
+    Kind::LruShutdown,
+    Kind::DiskCachePut,
+    Kind::DiskCachePutSubdirs,
+    Kind::JournalRecord,
+    Kind::IndexFlushAll,
+    Kind::IndexMutatorOnFullSection,
+    Kind::ContainerWrite,
+    Kind::ContainerRemove,
+    Kind::ResidencyContainerFlush,
+    Kind::LruAfterReload,
+    Kind::LruRunCycle,
+    Kind::DiskCacheRemove,
+    Kind::DiskCacheClear,
+    Kind::DiskCachePutReopened,
+    Kind::JournalSave,
+];
 
 impl Kind {
     fn name(self) -> &'static str {
@@ -104,15 +146,29 @@ impl Kind {
             Kind::DiskCachePut => "diskcache.put",
             Kind::DiskCachePutSubdirs => "diskcache.put(subdirs)",
             Kind::JournalRecord => "compaction-journal.record_segment",
+            Kind::IndexFlushAll => "index.flush_all_updates",
+            Kind::IndexMutatorOnFullSection => "index.mutator-on-full-section(flush+retry)",
+            Kind::ContainerWrite => "dynamic-container.write",
+            Kind::ContainerRemove => "dynamic-container.remove",
+            Kind::ResidencyContainerFlush => "residency-container.flush",
+            Kind::LruAfterReload => "lru.save-after-reload",
+            Kind::LruRunCycle => "lru.run_cycle",
+            Kind::DiskCacheRemove => "diskcache.remove",
+            Kind::DiskCacheClear => "diskcache.clear",
+            Kind::DiskCachePutReopened => "diskcache.put(reopened)",
+            Kind::JournalSave => "compaction-journal.save",
         }
+    }
+    fn is_journal(self) -> bool {
+        matches!(self, Kind::JournalRecord | Kind::JournalSave)
     }
     fn object(self) -> &'static str {
         match self {
-            Kind::IndexSaveAll | Kind::IndexFlushBucket => "index-bucket",
-            Kind::ResidencySave => "residency-db",
-            Kind::LruCheckpoint | Kind::LruShutdown => "lru-checkpoint",
-            Kind::DiskCachePut | Kind::DiskCachePutSubdirs => "disk-cache-entry",
-            Kind::JournalRecord => "compaction-journal",
+            Kind::IndexSaveAll | Kind::IndexFlushBucket | Kind::IndexFlushAll | Kind::IndexMutatorOnFullSection | Kind::ContainerWrite | Kind::ContainerRemove => "index-bucket",
+            Kind::ResidencySave | Kind::ResidencyContainerFlush => "residency-db",
+            Kind::LruCheckpoint | Kind::LruShutdown | Kind::LruAfterReload | Kind::LruRunCycle => "lru-checkpoint",
+            Kind::DiskCachePut | Kind::DiskCachePutSubdirs | Kind::DiskCacheRemove | Kind::DiskCacheClear | Kind::DiskCachePutReopened => "disk-cache-entry",
+            Kind::JournalRecord | Kind::JournalSave => "compaction-journal",
         }
     }
 }
@@ -236,12 +292,22 @@ fn scenario_residency(rng: &mut Rng, dir: &Path) -> Result<Recorded, String> {
     let store = dir.join("res");
     std::fs::create_dir_all(&store).map_err(|e| e.to_string())?;
     let path = store.join("residency.db");
-    let universe: Vec<[u8; 16]> = (0..rng.urange(3, 40)).map(|_| rng.array::<16>()).collect();
+    // one history in five has a population that needs several pages per bucket (more than 25 keys in a bucket)
+    let big = rng.chance(1, 5);
+    let universe: Vec<[u8; 16]> = (0..if big { rng.urange(450, 900) } else { rng.urange(3, 40) }).map(|_| rng.array::<16>()).collect();
     let mut db = ResidencyDb::new(path);
     let mut hist = Vec::new();
+    if big {
+        for k in &universe {
+            if rng.chance(4, 5) {
+                db.mark_resident(k);
+            }
+        }
+        hist.push(json!(["(population)", universe.len()]));
+    }
     let step = |db: &mut ResidencyDb, rng: &mut Rng, hist: &mut Vec<Value>| {
         let k = *rng.pick(&universe);
-        match rng.below(4) {
+        match rng.below(5) {
             0 | 1 => {
                 db.mark_resident(&k);
                 hist.push(json!(["mark_resident", hex::encode(&k[..6])]));
@@ -249,6 +315,10 @@ fn scenario_residency(rng: &mut Rng, dir: &Path) -> Result<Recorded, String> {
             2 => {
                 db.mark_non_resident(&k);
                 hist.push(json!(["mark_non_resident", hex::encode(&k[..6])]));
+            }
+            3 => {
+                db.mark_span_non_resident(&k, rng.below(4096) as i32, rng.range(1, 4096) as i32);
+                hist.push(json!(["mark_span_non_resident", hex::encode(&k[..6])]));
             }
             _ => {
                 db.delete_keys(&[k]);
@@ -366,12 +436,24 @@ fn disk_cfg(store: &Path, subdirs: bool) -> DiskCacheConfig {
     DiskCacheConfig::new(store).with_max_files(1000).with_subdirectories(subdirs, if subdirs { 2 } else { 0 })
 }
 
+/// Keys of the disk-cache scenarios: two that differ in the extension only, one below a sub-directory of its own.
+const DC_KEYS: [&str; 5] = ["alpha", "beta.bin", "beta.txt", "gamma", "sub/inner.bin"];
+
+/// What a fresh instance must show for a model of the cache: every entry, and a count of the entries on disk
+/// (`size()` of an instance that has not indexed anything yet scans the directory) that is the number of entries it
+/// then serves — whichever of them are old and new, leftover temporary files are not entries.
+fn render_diskcache(m: &BTreeMap<&str, Vec<u8>>) -> Obs {
+    let mut o: Obs = DC_KEYS.iter().map(|k| (format!("entry-{k}"), m.get(k).map_or("absent".to_string(), |v| format!("{}:{:016x}", v.len(), fnv64(v))))).collect();
+    o.insert("entry-count".to_string(), "as many as entries served".to_string());
+    o
+}
+
 fn scenario_diskcache(rng: &mut Rng, dir: &Path, subdirs: bool) -> Result<Recorded, String> {
     let store = dir.join("cache");
     std::fs::create_dir_all(&store).map_err(|e| e.to_string())?;
     let runtime = rt();
     let cache: DiskCache<SKey> = DiskCache::new(disk_cfg(&store, subdirs)).map_err(|e| e.to_string())?;
-    let keys = ["alpha", "beta.bin", "gamma"];
+    let keys = DC_KEYS;
     let mut model: BTreeMap<&str, Vec<u8>> = BTreeMap::new();
     let mut hist = Vec::new();
     for _ in 0..rng.urange(0, 4) {
@@ -382,9 +464,7 @@ fn scenario_diskcache(rng: &mut Rng, dir: &Path, subdirs: bool) -> Result<Record
         hist.push(json!(["put", k, v.len()]));
         model.insert(k, v);
     }
-    let render = |m: &BTreeMap<&str, Vec<u8>>| -> Obs {
-        keys.iter().map(|k| (format!("entry-{k}"), m.get(k).map_or("absent".to_string(), |v| format!("{}:{:016x}", v.len(), fnv64(v))))).collect()
-    };
+    let render = render_diskcache;
     let old = observe_copy(&store, |d| recover_diskcache(d, subdirs))?;
     if old != render(&model) {
         return Err("disk cache: a fresh instance does not show the completed puts (judged by C10, not here)".to_string());
@@ -414,10 +494,15 @@ fn recover_diskcache(store: &Path, subdirs: bool) -> Result<Obs, String> {
     let cache: DiskCache<SKey> = DiskCache::new(disk_cfg(store, subdirs)).map_err(|e| e.to_string())?;
     let runtime = rt();
     let mut o = Obs::new();
-    for k in ["alpha", "beta.bin", "gamma"] {
+    // before any get(): a get of a file that is not indexed adopts it, and size() then answers from the index
+    let n = runtime.block_on(cache.size()).map_err(|e| format!("size(): {e}"))?;
+    let mut served = 0usize;
+    for k in DC_KEYS {
         let got = runtime.block_on(cache.get(&SKey(k.to_string()))).map_err(|e| format!("get({k}): {e}"))?;
+        served += usize::from(got.is_some());
         o.insert(format!("entry-{k}"), got.map_or("absent".to_string(), |v| format!("{}:{:016x}", v.len(), fnv64(&v))));
     }
+    o.insert("entry-count".to_string(), if n == served { "as many as entries served".to_string() } else { format!("{n} entries counted on disk, {served} served") });
     Ok(o)
 }
 
@@ -450,6 +535,524 @@ fn recover_journal(store: &Path) -> Result<Obs, String> {
     let loaded = ExtractorCompactorBackup::load(store).map_err(|e| e.to_string())?;
     let segs: Vec<u16> = loaded.map(|b| b.segments().to_vec()).unwrap_or_default();
     Ok(BTreeMap::from([("compaction-journal".to_string(), format!("{segs:?}"))]))
+}
+
+// ------------------------------------------------------------------ coverage-driven extension: further scenarios
+
+/// `flush_all_updates`: several buckets with pending updates are merged and written one after the other
+/// (each through `save_index`). Each bucket is an object of its own: old or new, independently.
+fn scenario_index_flush_all(rng: &mut Rng, dir: &Path) -> Result<Recorded, String> {
+    let store = dir.join("idx");
+    std::fs::create_dir_all(&store).map_err(|e| e.to_string())?;
+    let mut buckets: Vec<u8> = Vec::new();
+    while buckets.len() < rng.urange(2, 4) {
+        let b = rng.below(16) as u8;
+        if !buckets.contains(&b) {
+            buckets.push(b);
+        }
+    }
+    let universe: Vec<[u8; 16]> = (0..rng.urange(4, 12)).map(|i| ekey_in_bucket(rng, buckets[i % buckets.len()])).collect();
+    let mut m = IndexManager::new(&store);
+    let mut hist = Vec::new();
+    let step = |m: &mut IndexManager, rng: &mut Rng, hist: &mut Vec<Value>| {
+        let k = *rng.pick(&universe);
+        let ek = EncodingKey::from_bytes(k);
+        match rng.below(8) {
+            0..=3 => {
+                let (a, o, s) = (rng.below(1024) as u16, rng.below(1 << 30) as u32, rng.range(1, 100_000) as u32);
+                let _ = m.add_entry(&ek, a, o, s);
+                hist.push(json!(["add", hex::encode(&k[..9]), a, o, s]));
+            }
+            4 => hist.push(json!(["remove", hex::encode(&k[..9]), m.remove_entry(&ek)])),
+            5 => {
+                let (a, o, s) = (rng.below(1024) as u16, rng.below(1 << 30) as u32, rng.range(1, 100_000) as u32);
+                hist.push(json!(["update", hex::encode(&k[..9]), a, o, s, m.update_entry(&ek, a, o, s)]));
+            }
+            6 => hist.push(json!(["status", hex::encode(&k[..9]), m.update_entry_status(&ek, UpdateStatus::DataNonResident)])),
+            _ => {
+                let b = IndexManager::bucket_for_key(&ek);
+                let _ = m.flush_updates_for_bucket(b);
+                hist.push(json!(["flush_bucket", b]));
+            }
+        }
+    };
+    for _ in 0..rng.urange(2, 8) {
+        step(&mut m, rng, &mut hist);
+    }
+    if rng.chance(2, 3) {
+        m.save_all().map_err(|e| format!("first save_all failed: {e}"))?;
+        hist.push(json!(["save_all (completed)"]));
+    } else {
+        hist.push(json!(["(no earlier save_all)"]));
+    }
+    for _ in 0..rng.urange(2, 10) {
+        step(&mut m, rng, &mut hist);
+    }
+    let old = observe_copy(&store, |d| recover_index(d, &universe))?;
+    arm(&store);
+    let r = m.flush_all_updates();
+    let mon = disarm().ok_or("monitor lost")?;
+    r.map_err(|e| format!("monitored flush_all_updates failed: {e}"))?;
+    // a bucket without pending updates is not written: its on-disk state stays. Every update enters through the
+    // update section, so such a bucket shows in memory what an earlier flush/save already wrote — unless it was never
+    // written at all and is empty.
+    let new = render_index(&m, &universe);
+    hist.push(json!(["flush_all_updates (monitored)"]));
+    hist.push(json!({"universe": universe.iter().map(hex::encode).collect::<Vec<_>>()}));
+    Ok(Recorded { kind: Kind::IndexFlushAll, history: Value::Array(hist), old, new, points: mon.points, calls: mon.calls, sub: PathBuf::from("idx") })
+}
+
+/// A mutator called on a bucket whose update section is full (60 pages x 21 entries): `add_entry` and
+/// `append_update_with_flush` (remove / update / status) merge the section into the sorted section, write the bucket
+/// through `save_index` and keep the new entry in memory. The state being saved is the one before the call.
+fn scenario_index_full_section(rng: &mut Rng, dir: &Path) -> Result<Recorded, String> {
+    const CAP: usize = 60 * 21;
+    let store = dir.join("idx");
+    std::fs::create_dir_all(&store).map_err(|e| e.to_string())?;
+    let bucket = rng.below(16) as u8;
+    let mut m = IndexManager::new(&store);
+    let mut keys: Vec<[u8; 16]> = Vec::with_capacity(CAP);
+    let mut seen: BTreeSet<[u8; 9]> = BTreeSet::new();
+    while keys.len() < CAP {
+        let k = ekey_in_bucket(rng, bucket);
+        let mut k9 = [0u8; 9];
+        k9.copy_from_slice(&k[..9]);
+        if seen.insert(k9) {
+            m.add_entry(&EncodingKey::from_bytes(k), (keys.len() % 1024) as u16, (keys.len() as u32) * 64, 64).map_err(|e| format!("prefill: {e}"))?;
+            keys.push(k);
+        }
+    }
+    let mut hist = vec![json!(["(prefill)", bucket, CAP])];
+    let mut universe: Vec<[u8; 16]> = (0..8).map(|_| *rng.pick(&keys)).collect();
+    let fresh = loop {
+        let k = ekey_in_bucket(rng, bucket);
+        if !keys.iter().any(|x| x[..9] == k[..9]) {
+            break k;
+        }
+    };
+    universe.push(fresh);
+    universe.sort_unstable();
+    universe.dedup();
+    if rng.chance(2, 3) {
+        m.save_all().map_err(|e| format!("first save_all failed: {e}"))?;
+        hist.push(json!(["save_all (completed: 1260 pending update entries on disk)"]));
+    } else {
+        hist.push(json!(["(no earlier save)"]));
+    }
+    let old = observe_copy(&store, |d| recover_index(d, &universe))?;
+    // what the internal flush persists: the state before the call
+    let new = render_index(&m, &universe);
+    let victim = *rng.pick(&keys);
+    let which = rng.below(4);
+    arm(&store);
+    let done: Result<bool, String> = match which {
+        0 => m.add_entry(&EncodingKey::from_bytes(fresh), 7, 4096, 99).map(|()| true).map_err(|e| e.to_string()),
+        1 => Ok(m.remove_entry(&EncodingKey::from_bytes(victim))),
+        2 => Ok(m.update_entry(&EncodingKey::from_bytes(victim), 9, 8192, 77)),
+        _ => Ok(m.update_entry_status(&EncodingKey::from_bytes(victim), UpdateStatus::HeaderNonResident)),
+    };
+    let mon = disarm().ok_or("monitor lost")?;
+    let name = ["add_entry", "remove_entry", "update_entry", "update_entry_status"][which as usize];
+    if !done.map_err(|e| format!("monitored {name} failed: {e}"))? {
+        return Err(format!("monitored {name} on the full section returned false"));
+    }
+    hist.push(json!([format!("{name} on the full section (monitored)")]));
+    hist.push(json!({"universe": universe.iter().map(hex::encode).collect::<Vec<_>>()}));
+    Ok(Recorded { kind: Kind::IndexMutatorOnFullSection, history: Value::Array(hist), old, new, points: mon.points, calls: mon.calls, sub: PathBuf::from("idx") })
+}
+
+fn container_ekey(payload: &[u8]) -> [u8; 16] {
+    let mut v = Vec::with_capacity(payload.len() + 9);
+    v.extend_from_slice(b"BLTE\0\0\0\0N");
+    v.extend_from_slice(payload);
+    md5::compute(&v).0
+}
+
+fn open_container(store: &Path) -> Result<DynamicContainer, String> {
+    let c = DynamicContainer::builder(store.to_path_buf()).build().map_err(|e| e.to_string())?;
+    rt().block_on(c.open()).map_err(|e| e.to_string())?;
+    Ok(c)
+}
+
+fn render_container(c: &DynamicContainer, universe: &[[u8; 16]]) -> Result<Obs, String> {
+    let runtime = rt();
+    let mut per_bucket: BTreeMap<u8, Vec<String>> = BTreeMap::new();
+    for k in universe {
+        let b = IndexManager::bucket_for_key(&EncodingKey::from_bytes(*k));
+        let e = per_bucket.entry(b).or_default();
+        if runtime.block_on(c.query(k)).map_err(|e| e.to_string())? {
+            e.push(hex::encode(&k[..9]));
+        }
+    }
+    Ok(per_bucket.into_iter().map(|(b, v)| (format!("bucket-{b:02x}"), v.join(","))).collect())
+}
+
+fn recover_container(store: &Path, universe: &[[u8; 16]]) -> Result<Obs, String> {
+    let c = open_container(store)?;
+    render_container(&c, universe)
+}
+
+/// `DynamicContainer::write` / `remove`: the data file is appended (write), then every index bucket is rewritten
+/// through `save_all`. The objects judged are the index buckets (which keys the reopened container reports).
+fn scenario_container(rng: &mut Rng, dir: &Path, remove: bool) -> Result<Recorded, String> {
+    let store = dir.join("dyn");
+    std::fs::create_dir_all(&store).map_err(|e| e.to_string())?;
+    let runtime = rt();
+    let c = open_container(&store)?;
+    let mut hist = Vec::new();
+    let mut universe: Vec<[u8; 16]> = Vec::new();
+    let mut live: Vec<[u8; 16]> = Vec::new();
+    let n0 = if remove { rng.urange(1, 4) } else { rng.urange(0, 4) };
+    let mut seq = 0u32;
+    let mut payload = |rng: &mut Rng| {
+        seq += 1;
+        let n = *rng.pick(&[0usize, 10, 300, 5000]);
+        let mut v = rng.bytes(n);
+        v.extend_from_slice(&seq.to_le_bytes());
+        v
+    };
+    for _ in 0..n0 {
+        let p = payload(rng);
+        let k = container_ekey(&p);
+        runtime.block_on(c.write(&rng.array::<16>(), &p)).map_err(|e| format!("write: {e}"))?;
+        if !runtime.block_on(c.query(&k)).map_err(|e| e.to_string())? {
+            return Err("the derived encoding key is not visible after a write (judged by C04)".to_string());
+        }
+        hist.push(json!(["write", p.len(), hex::encode(&k[..9])]));
+        universe.push(k);
+        live.push(k);
+    }
+    if live.len() >= 2 && rng.chance(1, 3) {
+        let k = live.remove(rng.usize_below(live.len()));
+        runtime.block_on(c.remove(&k)).map_err(|e| format!("remove: {e}"))?;
+        hist.push(json!(["remove", hex::encode(&k[..9])]));
+    }
+    let p = payload(rng);
+    let knew = container_ekey(&p);
+    if !remove {
+        universe.push(knew);
+    }
+    let old = observe_copy(&store, |d| recover_container(d, &universe))?;
+    arm(&store);
+    let r = if remove {
+        let k = *rng.pick(&live);
+        hist.push(json!(["remove (monitored)", hex::encode(&k[..9])]));
+        runtime.block_on(c.remove(&k))
+    } else {
+        hist.push(json!(["write (monitored)", p.len(), hex::encode(&knew[..9])]));
+        runtime.block_on(c.write(&rng.array::<16>(), &p))
+    };
+    let mon = disarm().ok_or("monitor lost")?;
+    r.map_err(|e| format!("monitored container call failed: {e}"))?;
+    let new = render_container(&c, &universe)?;
+    hist.push(json!({"universe": universe.iter().map(hex::encode).collect::<Vec<_>>()}));
+    Ok(Recorded { kind: if remove { Kind::ContainerRemove } else { Kind::ContainerWrite }, history: Value::Array(hist), old, new, points: mon.points, calls: mon.calls, sub: PathBuf::from("dyn") })
+}
+
+fn open_res_container(path: &Path) -> Result<ResidencyContainer, String> {
+    let mut c = ResidencyContainer::new("wow".to_string(), AccessMode::ReadWrite, path.to_path_buf());
+    rt().block_on(c.initialize()).map_err(|e| e.to_string())?;
+    Ok(c)
+}
+
+fn render_res_container(c: &ResidencyContainer, universe: &[[u8; 16]]) -> Obs {
+    let v: Vec<String> = universe.iter().filter(|k| c.is_resident(k)).map(|k| hex::encode(&k[..6])).collect();
+    BTreeMap::from([("residency-db".to_string(), v.join(","))])
+}
+
+fn recover_res_container(store: &Path, universe: &[[u8; 16]]) -> Result<Obs, String> {
+    let c = open_res_container(&store.join("wow"))?;
+    Ok(render_res_container(&c, universe))
+}
+
+/// The residency database saved through `ResidencyContainer::flush` (file `key_state_v8` in a directory the container
+/// created itself) and reopened through `ResidencyContainer::initialize`.
+fn scenario_res_container(rng: &mut Rng, dir: &Path) -> Result<Recorded, String> {
+    let store = dir.join("resc");
+    std::fs::create_dir_all(&store).map_err(|e| e.to_string())?;
+    let runtime = rt();
+    let c = open_res_container(&store.join("wow"))?;
+    let universe: Vec<[u8; 16]> = (0..rng.urange(3, 60)).map(|_| rng.array::<16>()).collect();
+    let mut hist = Vec::new();
+    let step = |rng: &mut Rng, hist: &mut Vec<Value>| -> Result<(), String> {
+        let k = *rng.pick(&universe);
+        let (name, r) = match rng.below(6) {
+            0..=2 => ("mark_resident", c.mark_resident(&k)),
+            3 => ("mark_non_resident", c.mark_non_resident(&k)),
+            4 => ("mark_span_non_resident", c.mark_span_non_resident(&k, 30, 100)),
+            _ => ("Container::remove", runtime.block_on(c.remove(&k))),
+        };
+        r.map_err(|e| format!("{name}: {e}"))?;
+        hist.push(json!([name, hex::encode(&k[..6])]));
+        Ok(())
+    };
+    for _ in 0..rng.urange(1, 30) {
+        step(rng, &mut hist)?;
+    }
+    if rng.chance(2, 3) {
+        c.flush().map_err(|e| format!("first flush failed: {e}"))?;
+        hist.push(json!(["flush (completed)"]));
+    } else {
+        hist.push(json!(["(no earlier flush: the monitored one is the first)"]));
+    }
+    for _ in 0..rng.urange(1, 30) {
+        step(rng, &mut hist)?;
+    }
+    let new = render_res_container(&c, &universe);
+    let old = observe_copy(&store, |d| recover_res_container(d, &universe))?;
+    arm(&store);
+    let r = c.flush();
+    let mon = disarm().ok_or("monitor lost")?;
+    r.map_err(|e| format!("monitored flush failed: {e}"))?;
+    hist.push(json!(["flush (monitored)"]));
+    hist.push(json!({"universe": universe.iter().map(hex::encode).collect::<Vec<_>>()}));
+    Ok(Recorded { kind: Kind::ResidencyContainerFlush, history: Value::Array(hist), old, new, points: mon.points, calls: mon.calls, sub: PathBuf::from("resc") })
+}
+
+fn lru_step(l: &mut LruManager, universe: &[[u8; 9]], rng: &mut Rng, hist: &mut Vec<Value>) {
+    let k = *rng.pick(universe);
+    match rng.below(5) {
+        0..=2 => {
+            l.touch(&k);
+            hist.push(json!(["touch", hex::encode(&k[..4])]));
+        }
+        3 => {
+            l.remove(&k);
+            hist.push(json!(["remove", hex::encode(&k[..4])]));
+        }
+        _ => {
+            l.evict_tail();
+            hist.push(json!(["evict_tail"]));
+        }
+    }
+}
+
+/// The life cycle the earlier scenarios leave out: a checkpoint written by one instance, a second instance (same or
+/// another capacity) that loads it through `run_cycle` (optionally evicting), works, and then saves — into the same
+/// generation file (no bump: both counters name the loaded file), into the next generation, or through `shutdown`.
+fn scenario_lru_after_reload(rng: &mut Rng, dir: &Path) -> Result<Recorded, String> {
+    let store = dir.join("lru");
+    std::fs::create_dir_all(&store).map_err(|e| e.to_string())?;
+    let cap1 = rng.urange(2, 12) as u32;
+    let universe: Vec<[u8; 9]> = (0..cap1 as usize + 4).map(|_| { let mut k = rng.array::<9>(); k[0] |= 1; k }).collect();
+    let runtime = rt();
+    let mut hist = vec![json!(["new", cap1])];
+    {
+        let mut l1 = LruManager::new(cap1, store.clone());
+        for _ in 0..rng.urange(2, 14) {
+            lru_step(&mut l1, &universe, rng, &mut hist);
+        }
+        for _ in 0..rng.urange(0, 3) {
+            l1.bump_generation();
+        }
+        runtime.block_on(l1.checkpoint_to_disk()).map_err(|e| format!("checkpoint of the first instance failed: {e}"))?;
+        hist.push(json!(["checkpoint_to_disk (completed)", l1.generation()]));
+        if rng.chance(1, 3) {
+            for _ in 0..rng.urange(1, 6) {
+                lru_step(&mut l1, &universe, rng, &mut hist);
+            }
+            l1.bump_generation();
+            runtime.block_on(l1.checkpoint_to_disk()).map_err(|e| format!("second checkpoint of the first instance failed: {e}"))?;
+            hist.push(json!(["bump_generation + checkpoint_to_disk (completed)", l1.generation()]));
+        }
+    }
+    let cap2 = match rng.below(4) {
+        0 => cap1 + rng.urange(1, 5) as u32,
+        1 if cap1 > 2 => cap1 - 1,
+        _ => cap1,
+    };
+    let mut l2 = LruManager::new(cap2, store.clone());
+    let (limit, avg) = if rng.chance(1, 3) { (rng.range(1, u64::from(cap1)) * 100, 100) } else { (0, 0) };
+    let st = runtime.block_on(l2.run_cycle(limit, avg)).map_err(|e| format!("run_cycle of the second instance failed: {e}"))?;
+    hist.push(json!(["second instance: new + run_cycle", cap2, limit, avg, {"loaded": st.loaded_entries, "evicted": st.entries_evicted}]));
+    for _ in 0..rng.urange(0, 10) {
+        lru_step(&mut l2, &universe, rng, &mut hist);
+    }
+    let how = rng.below(4);
+    if how == 1 {
+        l2.bump_generation();
+        hist.push(json!(["bump_generation"]));
+    }
+    if how == 3 {
+        // the generation is bumped and the loaded checkpoint is loaded once more: now the current AND the previous
+        // generation counter name the file that the next checkpoint writes (its delete-old step must spare it)
+        let g = l2.generation();
+        l2.bump_generation();
+        runtime.block_on(l2.load_from_disk(g)).map_err(|e| format!("load_from_disk({g}) of the second instance failed: {e}"))?;
+        hist.push(json!(["bump_generation + load_from_disk", g, {"generation": l2.generation(), "prev_generation": l2.prev_generation()}]));
+        for _ in 0..rng.urange(1, 6) {
+            lru_step(&mut l2, &universe, rng, &mut hist);
+        }
+    }
+    let new = render_lru(&l2);
+    let old = observe_copy(&store, |d| recover_lru(d, cap2))?;
+    arm(&store);
+    let r = if how == 2 { runtime.block_on(l2.shutdown()) } else { runtime.block_on(l2.checkpoint_to_disk()) };
+    let mon = disarm().ok_or("monitor lost")?;
+    r.map_err(|e| format!("monitored save of the second instance failed: {e}"))?;
+    let how_name = ["checkpoint_to_disk into the loaded generation (monitored)", "checkpoint_to_disk into the next generation (monitored)", "shutdown (monitored)", "checkpoint_to_disk while both generation counters name the loaded file (monitored)"][how as usize];
+    hist.push(json!([how_name, l2.generation()]));
+    hist.push(json!({"capacity": cap2}));
+    Ok(Recorded { kind: Kind::LruAfterReload, history: Value::Array(hist), old, new, points: mon.points, calls: mon.calls, sub: PathBuf::from("lru") })
+}
+
+/// `run_cycle` of a fresh instance on a directory in which an interrupted checkpoint left more than the newest
+/// generation: the previous generation file (crash between the rename and the delete-old step), a temporary file,
+/// an unrelated file. It loads the newest checkpoint and deletes the stale generations; nothing new is written, so
+/// whatever instant it dies at, a later instance must show the same checkpoint.
+fn scenario_lru_run_cycle(rng: &mut Rng, dir: &Path) -> Result<Recorded, String> {
+    let store = dir.join("lru");
+    std::fs::create_dir_all(&store).map_err(|e| e.to_string())?;
+    let cap = rng.urange(2, 12) as u32;
+    let universe: Vec<[u8; 9]> = (0..cap as usize + 3).map(|_| { let mut k = rng.array::<9>(); k[0] |= 1; k }).collect();
+    let runtime = rt();
+    let mut hist = vec![json!(["new", cap])];
+    let mut l = LruManager::new(cap, store.clone());
+    let mut leftovers: Vec<(PathBuf, Vec<u8>)> = Vec::new();
+    let rounds = rng.urange(2, 4);
+    for round in 0..rounds {
+        for _ in 0..rng.urange(1, 10) {
+            lru_step(&mut l, &universe, rng, &mut hist);
+        }
+        if round > 0 {
+            for _ in 0..rng.urange(1, 3) {
+                l.bump_generation();
+            }
+        }
+        runtime.block_on(l.checkpoint_to_disk()).map_err(|e| format!("checkpoint failed: {e}"))?;
+        hist.push(json!(["checkpoint_to_disk (completed)", l.generation()]));
+        if round + 1 < rounds {
+            // remember this generation file: the next checkpoint deletes it, a crash right before that would not have
+            if let Some((_, p)) = LruManager::find_latest_lru_file(&store) {
+                if let Ok(d) = std::fs::read(&p) {
+                    leftovers.push((p, d));
+                }
+            }
+        }
+    }
+    drop(l);
+    for (p, d) in &leftovers {
+        std::fs::write(p, d).map_err(|e| e.to_string())?;
+    }
+    hist.push(json!(["(older generation files put back, as after a crash before the delete-old step)", leftovers.len()]));
+    if rng.bool() {
+        std::fs::write(store.join("00000000000000FF.lru.tmp"), rng.bytes(100)).map_err(|e| e.to_string())?;
+        hist.push(json!(["(leftover temporary file)"]));
+    }
+    if rng.bool() {
+        std::fs::write(store.join("readme.txt"), b"not a checkpoint").map_err(|e| e.to_string())?;
+    }
+    let old = observe_copy(&store, |d| recover_lru(d, cap))?;
+    let new = old.clone();
+    let mut l2 = LruManager::new(cap, store.clone());
+    let (limit, avg) = if rng.bool() { (u64::from(cap) * 50, 100) } else { (0, 0) };
+    arm(&store);
+    let r = runtime.block_on(l2.run_cycle(limit, avg));
+    let mon = disarm().ok_or("monitor lost")?;
+    let st = r.map_err(|e| format!("monitored run_cycle failed: {e}"))?;
+    hist.push(json!(["run_cycle of a fresh instance (monitored)", limit, avg, {"stale_files_removed": st.stale_files_removed}]));
+    hist.push(json!({"capacity": cap}));
+    Ok(Recorded { kind: Kind::LruRunCycle, history: Value::Array(hist), old, new, points: mon.points, calls: mon.calls, sub: PathBuf::from("lru") })
+}
+
+/// Disk-cache routines that the put scenarios leave out: `remove` and `clear` (the delete steps), and `put` /
+/// `put_with_ttl` by an instance that has not indexed the files an earlier instance left (overwrite of a file the
+/// index does not know, first write below a sub-directory of the key's own).
+fn scenario_diskcache_ops(rng: &mut Rng, dir: &Path, kind: Kind) -> Result<Recorded, String> {
+    let store = dir.join("cache");
+    std::fs::create_dir_all(&store).map_err(|e| e.to_string())?;
+    let subdirs = rng.bool();
+    let runtime = rt();
+    let mut cache: DiskCache<SKey> = DiskCache::new(disk_cfg(&store, subdirs)).map_err(|e| e.to_string())?;
+    let mut model: BTreeMap<&str, Vec<u8>> = BTreeMap::new();
+    let mut hist = vec![json!({"subdirs": subdirs})];
+    let n0 = if kind == Kind::DiskCachePutReopened { rng.urange(0, 5) } else { rng.urange(1, 6) };
+    for _ in 0..n0 {
+        let k = *rng.pick(&DC_KEYS);
+        let n = rng.size_biased(20_000);
+        let v = rng.bytes(n);
+        runtime.block_on(cache.put(SKey(k.to_string()), Bytes::from(v.clone()))).map_err(|e| e.to_string())?;
+        hist.push(json!(["put", k, v.len()]));
+        model.insert(k, v);
+    }
+    let reopened = kind == Kind::DiskCachePutReopened || rng.bool();
+    if reopened {
+        drop(cache);
+        cache = DiskCache::new(disk_cfg(&store, subdirs)).map_err(|e| e.to_string())?;
+        hist.push(json!(["(new instance on the same directory: nothing indexed)"]));
+        // some of the files get adopted into the index by a get
+        for k in DC_KEYS {
+            if rng.chance(1, 4) {
+                let _ = runtime.block_on(cache.get(&SKey(k.to_string())));
+                hist.push(json!(["get", k]));
+            }
+        }
+    }
+    let old = observe_copy(&store, |d| recover_diskcache(d, subdirs))?;
+    if old != render_diskcache(&model) {
+        return Err("disk cache: a fresh instance does not show the completed puts (judged by C10, not here)".to_string());
+    }
+    let r: Result<(), String> = match kind {
+        Kind::DiskCacheRemove => {
+            let present: Vec<&str> = model.keys().copied().collect();
+            let k = if rng.chance(5, 6) { *rng.pick(&present) } else { *rng.pick(&DC_KEYS) };
+            model.remove(k);
+            hist.push(json!(["remove (monitored)", k]));
+            arm(&store);
+            runtime.block_on(cache.remove(&SKey(k.to_string()))).map(|_| ()).map_err(|e| e.to_string())
+        }
+        Kind::DiskCacheClear => {
+            model.clear();
+            hist.push(json!(["clear (monitored)"]));
+            arm(&store);
+            runtime.block_on(cache.clear()).map_err(|e| e.to_string())
+        }
+        _ => {
+            let k = *rng.pick(&DC_KEYS);
+            let n = rng.size_biased(40_000).max(1);
+            let v = rng.bytes(n);
+            let ttl = rng.bool();
+            hist.push(json!([if ttl { "put_with_ttl (monitored)" } else { "put (monitored)" }, k, v.len(), {"overwrites_a_file": model.contains_key(k)}]));
+            model.insert(k, v.clone());
+            arm(&store);
+            if ttl {
+                runtime.block_on(cache.put_with_ttl(SKey(k.to_string()), Bytes::from(v), std::time::Duration::from_secs(3600))).map_err(|e| e.to_string())
+            } else {
+                runtime.block_on(cache.put(SKey(k.to_string()), Bytes::from(v))).map_err(|e| e.to_string())
+            }
+        }
+    };
+    let mon = disarm().ok_or("monitor lost")?;
+    r.map_err(|e| format!("monitored disk-cache call failed: {e}"))?;
+    let new = render_diskcache(&model);
+    Ok(Recorded { kind, history: Value::Array(hist), old, new, points: mon.points, calls: mon.calls, sub: PathBuf::from("cache") })
+}
+
+/// The journal's other writers: `save` (rewrites the whole file in place) and `remove`. Like `record_segment`,
+/// observed only (the journal is not one of the objects the statement names); a panic on reopening is still judged.
+fn scenario_journal_save(rng: &mut Rng, dir: &Path) -> Result<Recorded, String> {
+    let store = dir.join("journal");
+    std::fs::create_dir_all(&store).map_err(|e| e.to_string())?;
+    let mut b = ExtractorCompactorBackup::new(&store);
+    let mut hist = Vec::new();
+    let mut segs: Vec<u16> = Vec::new();
+    for _ in 0..rng.urange(1, 6) {
+        let s = rng.below(1023) as u16;
+        b.record_segment(s).map_err(|e| e.to_string())?;
+        segs.push(s);
+        hist.push(json!(["record_segment", s]));
+    }
+    let render = |s: &[u16]| -> Obs { BTreeMap::from([("compaction-journal".to_string(), format!("{s:?}"))]) };
+    let old = render(&segs);
+    let loaded = ExtractorCompactorBackup::load(&store).map_err(|e| e.to_string())?.ok_or("journal not found")?;
+    let remove = rng.chance(1, 3);
+    let new = if remove { render(&[]) } else { render(&segs) };
+    arm(&store);
+    let r = if remove { loaded.remove() } else { loaded.save() };
+    let mon = disarm().ok_or("monitor lost")?;
+    r.map_err(|e| format!("monitored journal call failed: {e}"))?;
+    hist.push(json!([if remove { "load + remove (monitored)" } else { "load + save (monitored)" }]));
+    Ok(Recorded { kind: Kind::JournalSave, history: Value::Array(hist), old, new, points: mon.points, calls: mon.calls, sub: PathBuf::from("journal") })
 }
 
 fn copy_dir(from: &Path, to: &Path) -> std::io::Result<()> {
@@ -531,6 +1134,16 @@ fn derive_states(points: &[CrashPoint], thorough: bool) -> Vec<CrashState> {
         let dirty: Vec<(&PathBuf, &FileState)> = p.files.iter().filter(|(_, f)| f.dirty).collect();
         for (path, fs) in &dirty {
             let r = role(path);
+            // the archive data file of the container scenarios is never synced, so it is dirty at every point, and no
+            // judged object (index bucket) depends on its content — only reopening does. Its loss variants are derived
+            // where its content changes (first point that sees this content) and at the last point, not at every
+            // point of the index saves in between.
+            if r == "archive-data-file" {
+                let same_before = i > 0 && points[i - 1].files.get(*path).is_some_and(|q| q.dirty && Arc::ptr_eq(&q.content, &fs.content));
+                if same_before && i + 1 < n {
+                    continue;
+                }
+            }
             let len = fs.content.len();
             for cut in prefixes(len, thorough) {
                 let mut f = base.clone();
@@ -615,7 +1228,18 @@ fn recover(rec: &Recorded, store: &Path) -> Result<Obs, String> {
         }
         Kind::DiskCachePut => recover_diskcache(store, false),
         Kind::DiskCachePutSubdirs => recover_diskcache(store, true),
-        Kind::JournalRecord => recover_journal(store),
+        Kind::JournalRecord | Kind::JournalSave => recover_journal(store),
+        Kind::IndexFlushAll | Kind::IndexMutatorOnFullSection => recover_index(store, &parse_universe16(&rec.history)),
+        Kind::ContainerWrite | Kind::ContainerRemove => recover_container(store, &parse_universe16(&rec.history)),
+        Kind::ResidencyContainerFlush => recover_res_container(store, &parse_universe16(&rec.history)),
+        Kind::LruAfterReload | Kind::LruRunCycle => {
+            let cap = rec.history.as_array().and_then(|a| a.iter().find_map(|v| v.get("capacity"))).and_then(Value::as_u64).unwrap_or(4) as u32;
+            recover_lru(store, cap)
+        }
+        Kind::DiskCacheRemove | Kind::DiskCacheClear | Kind::DiskCachePutReopened => {
+            let subdirs = rec.history.as_array().and_then(|a| a.iter().find_map(|v| v.get("subdirs"))).and_then(Value::as_bool).unwrap_or(false);
+            recover_diskcache(store, subdirs)
+        }
     }
 }
 
@@ -661,7 +1285,7 @@ fn judge_state(ctx: &Ctx, rec: &Recorded, st: &CrashState) {
                 detail(json!({"panic": msg})),
             );
         }
-        Ok(Err(e)) if rec.kind == Kind::JournalRecord => {
+        Ok(Err(e)) if rec.kind.is_journal() => {
             ctx.obs("journal.reopen-error", 1);
             let _ = e;
         }
@@ -694,11 +1318,13 @@ fn judge_state(ctx: &Ctx, rec: &Recorded, st: &CrashState) {
             }
             if saw_old {
                 ctx.obs("outcome.old-state", 1);
+                ctx.obs(&format!("outcome.old-state.{routine}"), 1);
             }
             if saw_new {
                 ctx.obs("outcome.new-state", 1);
+                ctx.obs(&format!("outcome.new-state.{routine}"), 1);
             }
-            if !bad.is_empty() && rec.kind == Kind::JournalRecord {
+            if !bad.is_empty() && rec.kind.is_journal() {
                 // the compaction journal is not one of the objects the statement names:
                 // recorded as an observation only
                 ctx.obs(&format!("journal.neither-old-nor-new.{}", st.variant), 1);
@@ -716,7 +1342,7 @@ fn judge_state(ctx: &Ctx, rec: &Recorded, st: &CrashState) {
 /// Probe mode (child of the strace cross-check): run a few histories of every kind and print
 /// what the interposer counted inside the armed windows.
 fn probe_main(seed: u64) {
-    let kinds = [Kind::IndexSaveAll, Kind::IndexFlushBucket, Kind::ResidencySave, Kind::LruCheckpoint, Kind::LruShutdown, Kind::DiskCachePut, Kind::DiskCachePutSubdirs, Kind::JournalRecord];
+    let kinds = ALL_KINDS;
     let mut total: BTreeMap<String, u64> = BTreeMap::new();
     for h in 0..(kinds.len() as u64 * 3) {
         let kind = kinds[(h % kinds.len() as u64) as usize];
@@ -741,6 +1367,15 @@ fn run_scenario(kind: Kind, rng: &mut Rng, dir: &Path) -> Result<Recorded, Strin
         Kind::DiskCachePut => scenario_diskcache(rng, dir, false),
         Kind::DiskCachePutSubdirs => scenario_diskcache(rng, dir, true),
         Kind::JournalRecord => scenario_journal(rng, dir),
+        Kind::IndexFlushAll => scenario_index_flush_all(rng, dir),
+        Kind::IndexMutatorOnFullSection => scenario_index_full_section(rng, dir),
+        Kind::ContainerWrite => scenario_container(rng, dir, false),
+        Kind::ContainerRemove => scenario_container(rng, dir, true),
+        Kind::ResidencyContainerFlush => scenario_res_container(rng, dir),
+        Kind::LruAfterReload => scenario_lru_after_reload(rng, dir),
+        Kind::LruRunCycle => scenario_lru_run_cycle(rng, dir),
+        Kind::DiskCacheRemove | Kind::DiskCacheClear | Kind::DiskCachePutReopened => scenario_diskcache_ops(rng, dir, kind),
+        Kind::JournalSave => scenario_journal_save(rng, dir),
     }
 }
 
@@ -864,9 +1499,16 @@ fn main() {
         }
     }
 
-    let histories: u64 = ctx.pick(1200, 24_000);
+    let histories: u64 = ctx.pick(2040, 40_800);
     let thorough = !ctx.quick();
-    let kinds = [Kind::IndexSaveAll, Kind::IndexFlushBucket, Kind::ResidencySave, Kind::LruCheckpoint, Kind::LruShutdown, Kind::DiskCachePut, Kind::DiskCachePutSubdirs, Kind::JournalRecord];
+    let kinds = ALL_KINDS;
+    // round-robin schedule; the three kinds whose histories produce many more (and, with every 512-byte prefix in the
+    // thorough tier, much larger) crash states than the others take every third turn only
+    let heavy = [Kind::IndexMutatorOnFullSection, Kind::ContainerWrite, Kind::ContainerRemove];
+    let mut schedule: Vec<Kind> = Vec::new();
+    for round in 0..3 {
+        schedule.extend(kinds.iter().copied().filter(|k| round == 0 || !heavy.contains(k)));
+    }
     let deadline = std::time::Instant::now() + std::time::Duration::from_secs(ctx.pick(50, 540));
     let mut all_calls: BTreeMap<String, u64> = BTreeMap::new();
     let mut classes: BTreeMap<String, u64> = BTreeMap::new();
@@ -876,9 +1518,10 @@ fn main() {
             ctx.obs("stopped_by_time_budget", 1);
             break;
         }
-        let kind = kinds[(h % kinds.len() as u64) as usize];
+        let kind = schedule[(h % schedule.len() as u64) as usize];
         let mut rng = ctx.rng(mix64(h, 0xc06));
         let dir = tempfile::tempdir().expect("tempdir");
+        let t0 = std::time::Instant::now();
         let rec = match run_scenario(kind, &mut rng, dir.path()) {
             Ok(r) => r,
             Err(e) => {
@@ -886,6 +1529,7 @@ fn main() {
                 continue;
             }
         };
+        let t_scenario = t0.elapsed();
         ctx.obs(&format!("histories.{}", kind.name()), 1);
         for (k, v) in &rec.calls {
             *all_calls.entry(format!("{}:{k}", kind.name())).or_insert(0) += v;
@@ -910,6 +1554,11 @@ fn main() {
                 "derived_states": states.len(),
             }));
         }
+        if std::env::var_os("VH_C06_TIMING").is_some() {
+            ctx.obs(&format!("timing_ms.scenario.{}", kind.name()), t_scenario.as_millis() as u64);
+            ctx.obs(&format!("timing.states.{}", kind.name()), states.len() as u64);
+        }
+        let t1 = std::time::Instant::now();
         std::thread::scope(|s| {
             let chunk = states.len().div_ceil(16).max(1);
             for part in states.chunks(chunk) {
@@ -922,6 +1571,9 @@ fn main() {
                 });
             }
         });
+        if std::env::var_os("VH_C06_TIMING").is_some() {
+            ctx.obs(&format!("timing_ms.recoveries.{}", kind.name()), t1.elapsed().as_millis() as u64);
+        }
     }
     for k in kinds {
         if ctx.get_obs(&format!("histories.{}", k.name())) > 0 && ctx.get_obs(&format!("histories_with_io.{}", k.name())) == 0 {
